@@ -1,7 +1,8 @@
 (* Props/C06.v — C06: flow identifiers keep concurrent flows apart. *)
 From Coq Require Import List NArith Ascii Bool Lia.
 From SV Require Import Lib.Bytes Model.Wire Model.Chan Model.Stream
-  Proofs.Chan_lemmas Proofs.Stream_basic Proofs.Stream_reg Proofs.Stream_fw Gen.Consts.
+  Proofs.Chan_lemmas Proofs.Stream_basic Proofs.Stream_wrap Proofs.Stream_cb Proofs.Stream_reg Proofs.Stream_fw
+  Proofs.Stream_view Proofs.Stream_flow Proofs.Stream_assert Gen.Consts.
 Import ListNotations.
 Local Open Scope N_scope.
 
@@ -58,6 +59,54 @@ Proof.
     + intros (p & Hp & <- & Ho). apply (r_open _ R g p Hp Ho).
 Qed.
 Print Assumptions c06_distinct.
+
+(* (2b) Re-use across the tunnel.  The allocating side (the client) may hand an
+       identifier out again as soon as ITS flow is closed, while frames of the old
+       incarnation may still be travelling.  In every reachable state in which no
+       frame has yet reached a wrapper of another incarnation: whenever the CONNECT
+       of the new incarnation is the next frame the server will dispatch, the server
+       has already freed that identifier — the peer always frees an identifier before
+       it sees its re-use, so the new flow can never be confused with the old server
+       end.  (And older incarnations of one end that share an identifier with a newer
+       one are closed: c06_older_incarnation_closed.) *)
+Theorem c06_peer_frees_first : forall maxc lbs evs w fr tl f,
+  run (world0 maxc lbs) evs = Ok w -> w_stale w = false ->
+  path w Client = fr :: tl -> sf_cmd fr = CConnect -> sf_fid fr = Some f ->
+  x_chan (e_mux (w_sv w)) (sf_ch fr) = None.
+Proof. exact run_identifier_free. Qed.
+Print Assumptions c06_peer_frees_first.
+
+Theorem c06_older_incarnation_closed : forall maxc lbs evs w sd g h p q,
+  run (world0 maxc lbs) evs = Ok w -> w_stale w = false ->
+  g < h -> e_prox (get_end w sd) g = Some p -> e_prox (get_end w sd) h = Some q ->
+  m_chan (p_m p) = m_chan (p_m q) -> closed (p_m p) = true.
+Proof.
+  intros maxc lbs evs w sd g h p q Hr Hst.
+  destruct (run_GSinv evs _ _ (Ginv_world0 maxc lbs) (Sinv_world0 maxc lbs) Hr Hst) as [_ S].
+  destruct sd; [apply (e_hist _ (s_cl w S))|apply (e_hist _ (s_sv w S))].
+Qed.
+Print Assumptions c06_older_incarnation_closed.
+
+(* non-vacuity: with MAX_CHANNEL = 1 the only identifier is re-used by the second
+   flow; its CONNECT is the next frame for the server, no delivery was stale, the client
+   has the identifier registered for flow 1 and the server has freed it. *)
+Definition c06_io_idle := mkIO ConnDone RecvAgain SendAgain true.
+Definition c06_io_eof := mkIO ConnDone RecvEof SendAgain true.
+Definition c06_reuse_run : list event :=
+  [EvAccept []; EvFlush Client; EvFlush Client; EvDeliver Server c06_io_idle; EvDeliver Server c06_io_idle;
+   EvCallback Client 0 c06_io_eof; EvFlush Client; EvDeliver Server c06_io_idle;
+   EvCallback Server 0 c06_io_eof; EvFlush Server; EvFlush Server; EvFlush Server;
+   EvDeliver Client c06_io_idle; EvDeliver Client c06_io_idle; EvDeliver Client c06_io_idle;
+   EvAccept []; EvFlush Client; EvFlush Client; EvDeliver Server c06_io_idle].
+Example c06_ex_reuse :
+  match run (world0 1 65536) c06_reuse_run with
+  | Ok w => w_stale w = false /\
+            map (fun f => (sf_ch f, sf_cmd f, sf_fid f)) (path w Client) = [(1, CConnect, Some 1)] /\
+            x_chan (e_mux (w_cl w)) 1 = Some 1 /\ x_chan (e_mux (w_sv w)) 1 = None /\
+            e_next (w_cl w) = 2 /\ e_next (w_sv w) = 1
+  | Crash _ => False
+  end.
+Proof. vm_compute. repeat split; reflexivity. Qed.
 
 (* (3) A message for an identifier that is not registered (flow already closed,
        identifier not reassigned) is discarded: nothing changes at all. *)
